@@ -211,6 +211,7 @@ class Registration:
 
     def as_dict(self):
         resp = {"clientDataJSON": b64u(self.cdj), "attestationObject": b64u(self.att_obj)}
+        resp.update(getattr(self, "extra_response_members", None) or {})      # e.g. the Level-3 toJSON() copies authenticatorData / publicKey
         if self.transports is not None:
             resp["transports"] = self.transports
         d = {"id": self.id_text, "rawId": b64u(self.cred_id), "response": resp, "type": self.typ, "clientExtensionResults": {}}
@@ -423,7 +424,8 @@ def build(s):
     if k.get("no_att_stmt"):
         del ao["attStmt"]
     att_obj = cbor2.dumps(ao)
-    reg = Registration(cred, s.cred_id, cdj, att_obj, id_text=s.id_text, typ=s.typ)
+    # the OUTER rawId / id of the credential (client-controlled) may differ from the credential id attested inside authData
+    reg = Registration(cred, k.get("outer_raw_id", s.cred_id), cdj, att_obj, id_text=s.id_text, typ=s.typ)
     if s.post:
         s.post(reg)
     # RP-side roots
